@@ -373,7 +373,10 @@ def innermost(loops):
 
 
 def check_actuation(res, uf, g):
-    fn = uf.funcs[FN]
+    # statement-level static helpers are expanded first, so that extracting a block of mj_fwdActuation into a helper does
+    # not change what the rules see; the clamp primitive itself stays a call (it is recognised by shape)
+    fn, inlined = r_misc.inline_helpers(uf, uf.funcs[FN], skip=lambda name, h: r_misc.clamp_shape(h) is not None)
+    res.extra["inlined_helpers"] = sorted(set(inlined))
     sh = Shape(uf, fn)
     line = fn.get("line")
     key = g.find(FN)
@@ -381,7 +384,7 @@ def check_actuation(res, uf, g):
     readers = {k for k, f in g.funcs.items()
                if any(e["kind"] == "read" and e["struct"] == "mjData" and e["field"] == "ctrl" for e in f["events"])}
     via = {}
-    for c in g.funcs[key]["calls"]:
+    for c in sorted({cir.callee(x) for x in cir.calls(fn) if cir.callee(x)}):
         r = g.resolve(key[0], c)
         if r is not None and r != key and (g.closure([r], indirect=False) & readers):
             via[c] = r
@@ -731,6 +734,19 @@ MUTANTS = [
      "edits": [(FWD, "  mjtNum *ctrl = mjSTACKALLOC(d, nu, mjtNum);", "  mjtNum *ctrl_local = mjSTACKALLOC(d, nu, mjtNum);\n  mjtNum *ctrl = ctrl_local;")]},
     {"id": "ctl-flag-in-local", "expect": None,
      "edits": [(FWD, "  if (!mjDISABLED(mjDSBL_CLAMPCTRL)) {\n    clampVec(ctrl,", "  int clampctrl = !mjDISABLED(mjDSBL_CLAMPCTRL);\n  if (clampctrl) {\n    clampVec(ctrl,")]},
+    {"id": "ctl-extract-clamp-helper", "expect": None,
+     "edits": [(FWD, "// (qpos, qvel, ctrl, act) => (qfrc_actuator, actuator_force, act_dot)\nvoid mj_fwdActuation(",
+                "static void clampControls(const mjModel* m, mjtNum* u, int n) {\n  if (!mjDISABLED(mjDSBL_CLAMPCTRL)) {\n"
+                "    clampVec(u, m->actuator_ctrlrange, m->actuator_ctrllimited, n, NULL);\n  }\n}\n\n"
+                "// (qpos, qvel, ctrl, act) => (qfrc_actuator, actuator_force, act_dot)\nvoid mj_fwdActuation("),
+               (FWD, _CLAMP, "  clampControls(m, ctrl, nu);\n")]},
+    {"id": "ctl-extract-jointclamp-helper", "expect": None,
+     "edits": [(FWD, "// (qpos, qvel, ctrl, act) => (qfrc_actuator, actuator_force, act_dot)\nvoid mj_fwdActuation(",
+                "static void clampJointForces(const mjModel* m, mjData* d) {\n"
+                "  clampVec(d->qfrc_actuator, m->jnt_actfrcrange, m->jnt_actfrclimited, m->njnt, m->jnt_dofadr);\n}\n\n"
+                "// (qpos, qvel, ctrl, act) => (qfrc_actuator, actuator_force, act_dot)\nvoid mj_fwdActuation("),
+               (FWD, "  clampVec(d->qfrc_actuator, m->jnt_actfrcrange, m->jnt_actfrclimited, m->njnt, m->jnt_dofadr);\n\n  mj_freeStack(d);",
+                "  clampJointForces(m, d);\n\n  mj_freeStack(d);")]},
     {"id": "ctl-reorder-scan-clamp", "expect": None,
      "edits": [(FWD, _CLAMP, ""),
                (FWD, "      mju_zero(ctrl, nu);\n      break;\n    }\n  }\n", "      mju_zero(ctrl, nu);\n      break;\n    }\n  }\n" + _CLAMP)]},
